@@ -259,28 +259,145 @@ def check_t3(chk, m, K):
     chk.expect("T3", "expiry decisions in handle_timerq", n, 2)
 
 
+def _icmp_holds(pred, a, b):
+    ua, ub = a & 0xffffffff, b & 0xffffffff
+    return {"eq": a == b, "ne": a != b, "slt": a < b, "sle": a <= b, "sgt": a > b, "sge": a >= b,
+            "ult": ua < ub, "ule": ua <= ub, "ugt": ua > ub, "uge": ua >= ub}[pred]
+
+
+def _is_cursor_of(X, it, start, segs, seen):
+    """X is the result of list_iterate(.., it) / list_iterator_next(it), or a loop-carried value that is one on every arrival."""
+    X = strip_casts(X)
+    if X[0] == "call" and X[1] in ("list_iterate", "list_iterator_next"):
+        a = X[2][-1 if X[1] == "list_iterate" else 0]
+        # a local seen from the entry segment is ('alloca', n), from a later segment ('sym', n)
+        return a == it or (a[0] in ("alloca", "sym") and it[0] in ("alloca", "sym") and a[1] == it[1])
+    if X[0] == "sym":
+        if X in seen:
+            return True
+        seen.add(X)
+        arrivals = [p.carried.get(X[1]) for s, p in segs if p.end == "cut:" + start and getattr(p, "carried", None) is not None]
+        return bool(arrivals) and all(a is not None and _is_cursor_of(a, it, start, segs, seen) for a in arrivals)
+    return False
+
+
 def check_t4(chk, ml):
+    """list_insert_sorted from its correctness argument rather than its shape.  Every comparator result r = cmp(node, X) is
+    followed, on each loop-free segment, to what the segment then does with the node:
+      'before X'  (list_push when X is the head; list_iterator_insert when X is the cursor)  is allowed only for r < 0,
+      'past X'    (list_insert = append when X is the tail; the cursor loop going round again)  only for r >= 0,
+    and the cursor loop may only be entered if it cannot run off the end: every r for which the loop goes round again is
+    one for which the tail fast path has already appended (or the loop tests the cursor against NULL itself).  The first
+    two give sortedness and stability among equal keys (an equal node is never placed before X), the third termination.
+    r ranges over sign classes and the neighbourhoods of every constant it is compared with, which is exact for tests of
+    r against constants."""
     fn = ml.fn("list_insert_sorted")
     chk.note_fn(fn)
-    segs = [(s, p) for s, p in paths.enumerate_segments(fn, ml) if p.end != "unreachable"]
-    tests = {}
+    L = {"head": (ml.struct_field_offset("list_t", "head"),), "tail": (ml.struct_field_offset("list_t", "tail"),)}
+    allsegs = paths.enumerate_segments(fn, ml)
+    # conditions whose other arm is an assertion failure are beliefs, not exits of the search
+    asserted = {id(p.conds[-1][2]) for s, p in allsegs if p.end == "unreachable" and p.conds}
+    segs = [(s, p) for s, p in allsegs if p.end != "unreachable"]
+    next_o = ml.struct_field_offset("list_node", "next")
+    n_tests = 0
+    cont_sets, append_sets, null_guarded = [], [], False
     for s, p in segs:
-        for k, e in enumerate(p.events):
-            if e.kind == "call" and not isinstance(e.callee, str):
-                first_is_node = e.args and e.args[0] == ("arg", 1)
-                for c, taken, inst in p.conds:
-                    cc = strip_casts(c)
-                    if cc[0] == "icmp" and strip_casts(cc[2]) == e.res and cc[3][0] == "c":
-                        key = inst.loc
-                        v = cc[3][2]
-                        sv = v - (1 << 32) if v >> 31 else v
-                        ge0 = (cc[1] == "sge" and sv == 0) or (cc[1] == "sgt" and sv == -1)
-                        tests[key] = (ge0, first_is_node, "%s %d" % (cc[1], sv))
-    for loc, (ge0, first, txt) in sorted(tests.items()):
-        chk.ob("T4.stable-polarity", "list_insert_sorted test at %s" % loc, ge0 and first,
-               "the new node moves past X iff cmp(node, X) >= 0 (test is '%s', node first: %s): with '> 0' a node is inserted before "
-               "existing equal ones, so equal due times fire in reverse registration order" % (txt, first), loc, fn.name)
-    chk.expect("T4", "comparator tests in list_insert_sorted", len(tests), 2)
+        calls = [(k, e) for k, e in enumerate(p.events) if e.kind == "call"]
+        for k, e in calls:
+            if isinstance(e.callee, str) or not e.args or len(e.args) != 2:
+                continue
+            r = e.res
+            tests = []
+            for n, (c, taken, inst) in enumerate(p.conds):
+                cc = strip_casts(c)
+                if cc[0] == "icmp" and strip_casts(cc[2]) == r and cc[3][0] == "c":
+                    v = cc[3][2]
+                    tests.append((cc[1], v - (1 << 32) if v >> 31 else v, bool(taken), p.cond_pos[n], inst))
+                elif cc[0] == "icmp" and strip_casts(cc[3]) == r and cc[2][0] == "c":
+                    v = cc[2][2]
+                    swap = {"slt": "sgt", "sgt": "slt", "sle": "sge", "sge": "sle", "ult": "ugt", "ugt": "ult", "ule": "uge", "uge": "ule"}
+                    tests.append((swap.get(cc[1], cc[1]), v - (1 << 32) if v >> 31 else v, bool(taken), p.cond_pos[n], inst))
+            if not tests:
+                continue
+            n_tests += 1
+            pts = {-(1 << 31), -1, 0, 1, (1 << 31) - 1}
+            for t in tests:
+                pts |= {x for x in (t[1] - 1, t[1], t[1] + 1) if -(1 << 31) <= x < (1 << 31)}
+            S = sorted(x for x in pts if all(_icmp_holds(t[0], x, t[1]) == t[2] for t in tests))
+            loc = tests[-1][4].loc
+            txt = " and ".join("%sr %s %d" % ("" if t[2] else "not ", t[0], t[1]) for t in tests)
+            first_is_node = e.args[0] == ("arg", 1)
+            X = strip_casts(e.args[1])
+            kind = "cursor"
+            if X[0] == "ld" and ptr_parts(X[1]) == (("arg", 0), L["head"][0], ()):
+                kind = "head"
+            elif X[0] == "ld" and ptr_parts(X[1]) == (("arg", 0), L["tail"][0], ()):
+                kind = "tail"
+            after = [c2 for k2, c2 in calls if k2 >= tests[-1][3] and isinstance(c2.callee, str)]
+            names = [c2.callee for c2 in after]
+            later = [x for x in p.events[tests[-1][3]:] if x.kind == "store" and strip_casts(x.val) == ("arg", 1)]
+            # the open-coded forms of list_insert (tail->next = node) and list_push (head = node)
+            if any(ptr_parts(x.ptr)[1:] == (next_o, ()) and ptr_parts(x.ptr)[0][0] == "ld"
+                   and ptr_parts(ptr_parts(x.ptr)[0][1]) == (("arg", 0), L["tail"][0], ()) for x in later):
+                names.append("list_insert")
+            elif any(ptr_parts(x.ptr) == (("arg", 0), L["head"][0], ()) for x in later):
+                names.append("list_push")
+            sid = "%s..%s cmp(node, %s) with %s" % (s.lstrip("%"), p.end, kind, txt)
+            chk.ob("T4.node-first", sid, first_is_node, "the new node is the comparator's first argument (the sign convention of every test below)",
+                   loc, fn.name)
+            open_coded = kind == "cursor" and "list_iterator_insert" not in names and p.end == "ret" and \
+                [x for x in later if not (ptr_parts(x.ptr)[0] == ("arg", 1))]
+            before = (kind == "head" and "list_push" in names) or (kind == "cursor" and ("list_iterator_insert" in names or open_coded))
+            if kind == "cursor" and before:
+                # 'before X' has to mean immediately before X: through the iterator whose current node X is, or into a slot
+                # that this segment read and found to hold X
+                if open_coded:
+                    slots = [x.ptr for x in open_coded]
+                    holds = [sl for sl in slots if any(y.kind == "load" and y.ptr == sl and strip_casts(y.val) == X for y in p.events)]
+                    chk.ob("T4.insert-position", sid, bool(holds),
+                           "the node is stored into the link that was read and found to hold X (so it lands immediately before X)" if holds else
+                           "the node is stored into %s, which this segment never saw holding X: it is linked in somewhere other than "
+                           "immediately before the node it compared smaller than, and the list is no longer sorted" % fmt(slots[0])[:60],
+                           loc, fn.name)
+                else:
+                    ins = [c2 for c2 in after if c2.callee == "list_iterator_insert"][0]
+                    chk.ob("T4.insert-position", sid, _is_cursor_of(X, ins.args[0], s, segs, set()),
+                           "X is the current node of the iterator the node is inserted through (list_iterate / list_iterator_next results "
+                           "on every way into the test)", loc, fn.name)
+            goes_round = kind == "cursor" and p.end == "cut:" + s
+            past = (kind == "tail" and "list_insert" in names and "list_push" not in names) or goes_round or \
+                (kind == "cursor" and "list_iterator_next" in names and "list_iterator_insert" not in names)
+            if before:
+                bad = [x for x in S if x >= 0]
+                chk.ob("T4.stable-polarity", sid, not bad,
+                       "the node is placed BEFORE X only when cmp(node, X) < 0" + ("" if not bad else
+                       "; here also for cmp == %d: a node is inserted in front of an existing equal (or smaller) one, so equal due times "
+                       "fire in reverse registration order" % bad[0]), loc, fn.name)
+            if past:
+                bad = [x for x in S if x < 0]
+                chk.ob("T4.stable-polarity", sid, not bad,
+                       "the node moves PAST X only when cmp(node, X) >= 0" + ("" if not bad else
+                       "; here also for cmp == %d: the node ends up behind a larger one and the list is no longer sorted" % bad[0]), loc, fn.name)
+                if kind == "tail":
+                    append_sets.append(set(S))
+                elif goes_round or "list_iterator_next" in names:
+                    cont_sets.append((set(S), sid, loc))
+                    for c, taken, inst in p.conds:
+                        cc = strip_casts(c)
+                        if id(inst) not in asserted and cc[0] == "icmp" and cc[1] in ("eq", "ne") and ("null",) in (cc[2], cc[3]) and X in (strip_casts(cc[2]), strip_casts(cc[3])) \
+                                and (cc[1] == "ne") == bool(taken):
+                            null_guarded = True
+    appended = set().union(*append_sets) if append_sets else set()
+    for S, sid, loc in cont_sets:
+        esc = sorted(S - appended)
+        ok = null_guarded or not esc
+        chk.ob("T4.search-terminates", sid, ok,
+               "every comparator result that sends the cursor on has been taken by the tail fast path (or the loop tests the cursor for NULL), "
+               "so the search stops at the tail at the latest" if ok else
+               "the cursor moves on for cmp == %d but the tail fast path does not append for that value: with the tail as X the search walks "
+               "off the end of the list (NULL passed to the comparator)" % esc[0], loc, fn.name)
+    chk.expect("T4", "comparator tests in list_insert_sorted (per segment)", n_tests, 3)
+    chk.expect("T4", "cursor-advance decisions in list_insert_sorted", len(cont_sets), 1)
 
 
 def check_t6(chk, m, K):
